@@ -116,9 +116,12 @@ def gen_spec(rnd):
     groups = []
     for i in range(rnd.randint(0, 3)):
         g = {'name': 'g%d' % i, 'attrs': [attr() for _ in range(rnd.randint(1, 3))], 'uses': []}
+        reached = set()
         for prev in groups:
-            if rnd.random() < 0.4:
+            # a group reached twice (diamond) would duplicate its attributes after expansion: a valid schema has none
+            if rnd.random() < 0.4 and not (closure(groups, prev['name']) & reached):
                 g['uses'].append(prev['name'])
+                reached |= closure(groups, prev['name'])
         groups.append(g)
     elements = []
     nelem = rnd.randint(1, 3)
